@@ -19,6 +19,8 @@ enum Want {
     Event(usize),
     /// waits for a thread to finish
     Join(usize),
+    /// waits on condition variable `key` for a notification later than sequence number `seq`
+    Cond(usize, u64),
     Finished,
     NotStarted,
     /// not started, and not to be started before this event is set
@@ -40,6 +42,8 @@ struct State {
     current: usize,
     want: Vec<Want>,
     holders: HashMap<usize, usize>,
+    /// notifications seen per condition variable
+    cond_seq: HashMap<usize, u64>,
     events: Vec<bool>,
     prefix: Vec<usize>,
     trace: Vec<Step>,
@@ -111,6 +115,7 @@ fn enabled_of(st: &State) -> Vec<usize> {
             Want::Lock(k) => !st.holders.contains_key(k),
             Want::Event(e) => st.events[*e],
             Want::Join(t) => st.want[*t] == Want::Finished,
+            Want::Cond(k, seq) => st.cond_seq.get(k).copied().unwrap_or(0) > *seq,
             Want::Finished => false,
         };
         if ok {
@@ -123,7 +128,9 @@ fn enabled_of(st: &State) -> Vec<usize> {
 /// Pick the next thread (called with the state locked by the thread `at`).
 fn choose(st: &mut State, at: usize, label: &'static str) {
     let enabled = enabled_of(st);
-    if let Some(Want::Lock(_)) = st.want.get(at) {
+    // a thread that has to wait for another one (on a mutex or on a condition variable): the
+    // executions in which the guard protocol really makes somebody wait
+    if let Some(Want::Lock(_) | Want::Cond(..)) = st.want.get(at) {
         if !enabled.contains(&at) {
             st.blocked_lock_seen = true;
         }
@@ -259,6 +266,26 @@ pub fn join(t: usize) {
     point_with(Want::Join(t), "join")
 }
 
+/// Current notification count of a condition variable (read while the caller still holds the mutex).
+pub fn cond_seq(key: usize) -> u64 {
+    let g = CTL.lock().unwrap_or_else(|p| p.into_inner());
+    g.as_ref().and_then(|st| st.cond_seq.get(&key).copied()).unwrap_or(0)
+}
+
+/// Block until the condition variable has been notified after `seq`.
+pub fn cond_block(key: usize, seq: u64) {
+    point_with(Want::Cond(key, seq), "condvar.wait")
+}
+
+pub fn cond_notify(key: usize) {
+    {
+        let mut g = CTL.lock().unwrap_or_else(|p| p.into_inner());
+        let st = g.as_mut().expect("scheduler state");
+        *st.cond_seq.entry(key).or_insert(0) += 1;
+    }
+    point("condvar.notify");
+}
+
 // ---------------------------------------------------------------------------------------------
 // reset registry: statics of the code under test must start every execution like a fresh process
 
@@ -316,6 +343,7 @@ pub fn execute(bodies: Vec<Box<dyn FnOnce() + Send>>, prefix: &[usize], events: 
                 None => Want::NotStarted,
             }).collect(),
             holders: HashMap::new(),
+            cond_seq: HashMap::new(),
             events: vec![false; events],
             prefix: prefix.to_vec(),
             trace: Vec::new(),
